@@ -1,5 +1,5 @@
 #!/usr/bin/env python3
-"""sweep.py [-j N] [--tier quick] [--props P,Q] [ids...]
+"""sweep.py [-j N] [--tier quick] [--props P,Q|all] [--dir seeded|benign] [ids...]
 Run every seeded change against the check of its property, in parallel, each on its own scratch worktree of /repo
 (/repo itself is never touched). The model-check step is skipped (it does not depend on the code under test).
 Appends to seeded/RESULTS.tsv; render with tools/results_md.py."""
@@ -8,6 +8,7 @@ from concurrent.futures import ThreadPoolExecutor
 
 SRC = "/verif"
 SW = "/tmp/sw"
+SUB = "seeded"
 ROOT = SRC      # replaced by a snapshot of /verif in main(), so that edits made while the sweep runs do not reach it
 
 def one(job):
@@ -18,7 +19,7 @@ def one(job):
     wt = os.path.join(d, "repo")
     subprocess.run(["git", "-C", "/repo", "worktree", "add", "-q", "--detach", wt, "HEAD"], check=True)
     try:
-        p = subprocess.run(["git", "-C", wt, "apply", "--whitespace=nowarn", os.path.join(ROOT, "seeded", mid, "patch.diff")],
+        p = subprocess.run(["git", "-C", wt, "apply", "--whitespace=nowarn", os.path.join(ROOT, SUB, mid, "patch.diff")],
                            stdout=subprocess.PIPE, stderr=subprocess.STDOUT, text=True)
         if p.returncode != 0:
             return (mid, prop, "NOAPPLY", 0, p.stdout.strip()[:100])
@@ -47,7 +48,7 @@ def one(job):
 def main():
     global ROOT
     args = sys.argv[1:]
-    j, tier, props = 4, "quick", None
+    j, tier, props, sub = 4, "quick", None, "seeded"
     while args and args[0].startswith("-"):
         if args[0] == "-j":
             j = int(args[1]); args = args[2:]
@@ -55,20 +56,26 @@ def main():
             tier = args[1]; args = args[2:]
         elif args[0] == "--props":
             props = args[1].split(","); args = args[2:]
+            if props == ["all"]:
+                props = ["C%02d" % i for i in range(1, 19)]
+        elif args[0] == "--dir":
+            sub = args[1]; args = args[2:]
         else:
             raise SystemExit(__doc__)
-    ids = args or sorted(x for x in os.listdir(os.path.join(ROOT, "seeded")) if os.path.exists(os.path.join(ROOT, "seeded", x, "patch.diff")))
+    global SUB
+    SUB = sub
+    ids = args or sorted(x for x in os.listdir(os.path.join(ROOT, sub)) if os.path.exists(os.path.join(ROOT, sub, x, "patch.diff")))
     seed = int(os.environ.get("VERIF_SEED", "1"))
     jobs = []
     for mid in ids:
-        meta = json.load(open(os.path.join(ROOT, "seeded", mid, "meta.json")))
+        meta = json.load(open(os.path.join(ROOT, sub, mid, "meta.json")))
         for p in (props or [meta["property"]]):
             jobs.append((mid, p, tier, seed))
     os.makedirs(SW, exist_ok=True)
     ROOT = os.path.join(SW, "snap-%d" % os.getpid())
     subprocess.run(["rsync", "-a", "--delete", "--exclude", ".git", "--exclude", "work", "--exclude", "target", "--exclude", "replays",
                     "--exclude", "evidence", "--exclude", "__pycache__", SRC + "/", ROOT + "/"], check=True)
-    out = open(os.path.join(SRC, "seeded", "RESULTS.tsv"), "a")
+    out = open(os.path.join(SRC, sub, "RESULTS.tsv"), "a")
     with ThreadPoolExecutor(max_workers=j) as ex:
         for mid, prop, res, wall, why in ex.map(one, jobs):
             line = "%s\t%s\t%s\t%ds\t%s" % (mid, prop, res, wall, why)
